@@ -326,6 +326,38 @@ def circuit_histories(seed, n, ncalls):
     return out
 
 
+def crafted_circuit_histories():
+    """Short histories that reach circuits the random driver meets rarely (a layout with an idle cycle, nested blocks)."""
+    import warnings
+    warnings.filterwarnings('ignore')
+    from bqskit.ir.circuit import Circuit
+    from harness import circuit_rec as R
+    out = []
+
+    def op(tag, loc):
+        return {'tag': tag, 'kind': 'gate', 'loc': loc, 'np': 1, 'rad': [2] * len(loc), 'body': []}
+    calls = [R.mkcall('append', op=op(1, [0])), R.mkcall('append', op=op(4, [1])), R.mkcall('append', op=op(5, [2])),
+             R.mkcall('append', op=op(2, [0])), R.mkcall('append', op=op(3, [0]))]
+    reg = [[0, 2, 2], [1, 0, 0], [2, 0, 0]]
+    for name, extra in (('straighten over a gap', [R.mkcall('straighten', region=reg)]), ('fold over a gap', [R.mkcall('fold', region=reg)])):
+        c = Circuit(3)
+        st = Store('circuit', 'crafted: ' + name)
+        try:
+            for call in calls + extra:
+                c = R.exec_call(c, call)
+        except Exception:
+            continue
+        st.new('c', c)
+        st.pickle('c', 'p')
+        st.copy('c', 'k')
+        st.new('b', Circuit(1))
+        st.become('b', 'c')
+        h = st.history()
+        h['calls'] = calls + extra
+        out.append(h)
+    return out
+
+
 def _try(fn, *a):
     try:
         fn(*a)
@@ -598,6 +630,7 @@ def run(ctx: Ctx) -> Outcome:
     else:
         q = ctx.quick
         hists = circuit_histories(ctx.seed, 60 if q else 600, 60 if q else 150)
+        hists += crafted_circuit_histories()
         gh, skipped, nzoo = gate_histories()
         hists += gh
         hists += model_histories(rng, 15 if q else 150)
